@@ -522,6 +522,7 @@ func traceCase(bin, work string, c Case, shape string) (*traced, error) {
 		return tr, nil
 	}
 	tr.exp = Reference(tree, inv, []byte(c.Stdin))
+	clearRepaired(tr.exp) // shapes of repaired conditions are kill-tested like any other
 	tr.before, err = Snap(tree)
 	if err != nil {
 		return nil, err
